@@ -167,6 +167,8 @@ struct TaskCtx {
   void* caller_loc = nullptr;
   int caller_loc_kind = 0;
   char caller_loc_sig[96] = {0};
+  // thread-specific data of this task (pthread_key / tss seams, sched.cc)
+  void* tsd[32] = {nullptr};
 };
 void publish_ctx(TaskCtx* t);   // make t's op the one blamed for a crash / violation (called when t gets the CPU)
 extern thread_local TaskCtx* t_task;
@@ -175,6 +177,7 @@ extern bool g_in_op;             // a library call issued by an op is in flight 
 void op_begin(int task, int opid, int kind, const char* fn);
 void op_end();
 void set_task_stack(TaskCtx* t);
+void task_thread_exit();         // the calling task's thread ends: thread-specific-data destructors run now, under the scheduler's control
 void cache_main_stack();
 void run_reset_child();          // called first thing in a freshly forked child
 
